@@ -495,8 +495,8 @@ Qed.
 Lemma pins_ok :
   (pin_ParseDurationUnitFormat, pin_parse_duration, pin_parse_date, pin_iso_utc_time_to_seconds,
    pin_parse_abbreviated_size, pin_abbreviate_space)
-  = ("e60451526ff2414a", "1585f90ced9cf557", "a7f7f872c8ec251b", "e6004979360ddcc2",
-     "90d09f791969c62a", "fb656703568ea414")%string.
+  = ("e60451526ff2414a", "693d444aee709583", "ec2189f6a5d6742e", "d07f2764f994da2a",
+     "e478f6b709c0fba5", "fb656703568ea414")%string.
 Proof. reflexivity. Qed.
 
 Lemma regexes_ok :
